@@ -52,7 +52,9 @@ FindExtrema ==
 
 FindZerox ==
   /\ stage = "zerox"
-  /\ IF ~c.zx.seen \/ ~(ZeroxDefined(ext[1], ext[2]) /\ Alternating(ext[1], ext[2]) /\ Len(ext[1]) + Len(ext[2]) >= 2)
+  /\ IF ~c.zx.seen \/ ~(/\ \A k \in 1 .. Len(ext[1]) : ext[1][k] \in 0 .. (c.n - 1)
+                        /\ \A k \in 1 .. Len(ext[2]) : ext[2][k] \in 0 .. (c.n - 1)
+                        /\ ZeroxDefined(ext[1], ext[2]) /\ Alternating(ext[1], ext[2]) /\ Len(ext[1]) + Len(ext[2]) >= 2)
        THEN fails' = fails
        ELSE fails' = fails \o (IF c.zx.raised THEN <<"C03.raised">> ELSE Fail(<<c.zx.rs, c.zx.dc>> = Zerox(c.sig, ext[1], ext[2]), "C03.midpoints"))
   /\ stage' = "finish"
